@@ -119,6 +119,68 @@ def bad_tree(text):
     return tree
 
 
+_CTX = None
+
+
+def _unit(unit):
+    """perform the histories of one unit on its own pair of printer objects
+    -> PureTrace records"""
+    pi, qi, hists = unit
+    factories, trees, bads, ref = _CTX
+    printers = [factories[pi][1](), factories[qi][1]()]
+    callmap = {c: ((0, pi) if c <= 3 else (1, qi), (c - 1) % 3)
+               for c in range(1, 7)}
+    args0 = digest([tree_snapshot(t) for t in trees])
+    shared0 = digest(shared_snapshot(printers))
+    out = []
+    for h in hists:
+        live = []        # [call id, generator, chunks]
+        events = []
+        for op, x in h:
+            result = 0
+            cid = 0
+            if op == 'start':
+                (slot, p), ti = callmap[x]
+                live.append([x, None, [], slot, ti])
+                cid = x
+            else:
+                ent = live[x - 1]
+                cid = ent[0]
+                if ent[1] is None:
+                    # the generator is created at its first use
+                    tree = (bads if op == 'raise' else trees)[ent[4]]
+                    ent[1] = printers[ent[3]](tree)
+                try:
+                    if op in ('step', 'abandon'):
+                        # an abandoned call has been consumed partly
+                        for _ in range(17):
+                            c = next(ent[1], None)
+                            if c is None:
+                                break
+                            ent[2].append(tuple(c))
+                    elif op == 'finish':
+                        for c in ent[1]:
+                            ent[2].append(tuple(c))
+                        result = digest(ent[2])
+                    elif op == 'raise':
+                        try:
+                            for c in ent[1]:
+                                pass
+                        except Exception:
+                            pass
+                except Exception as e:
+                    result = digest(('EXC', repr(e)))
+                if op in ('finish', 'abandon', 'raise'):
+                    live.pop(x - 1)
+            events.append([op, cid, result,
+                           digest([tree_snapshot(t) for t in trees]),
+                           digest(shared_snapshot(printers))])
+        refs = [ref[(callmap[c][0][1], callmap[c][1])] for c in range(1, 7)]
+        out.append({'events': events, 'ref': refs, 'args0': args0,
+                    'shared0': shared0})
+    return out
+
+
 def main(tier, seed, replay=None):
     rep = Report('C14', 'model_checking', tier, seed)
     rep.assumptions = [
@@ -177,66 +239,25 @@ def main(tier, seed, replay=None):
     records = []
     info = {}
     nontrivial = set()
+    # one unit = one family (pair of printer objects, reused over all the
+    # histories of the unit) x one slice of the histories
+    nslices = 1 if tier == 'quick' else 3
+    units = []
     for pi in range(len(factories)):
         qi = (pi + 1 + seed) % len(factories)
         if qi == pi:
             qi = (pi + 1) % len(factories)
-        # two printer OBJECTS, reused over all histories of this family
-        printers = [factories[pi][1](), factories[qi][1]()]
-        callmap = {c: ((0, pi) if c <= 3 else (1, qi), (c - 1) % 3)
-                   for c in range(1, 7)}
-        args0 = digest([tree_snapshot(t) for t in trees])
-        shared0 = digest(shared_snapshot(printers))
-        for h in hists:
-            live = []        # [call id, generator, chunks]
-            events = []
-            for op, x in h:
-                result = 0
-                cid = 0
-                if op == 'start':
-                    (slot, p), ti = callmap[x]
-                    live.append([x, None, [], slot, ti])
-                    cid = x
-                else:
-                    ent = live[x - 1]
-                    cid = ent[0]
-                    if ent[1] is None:
-                        # the generator is created at its first use
-                        tree = (bads if op == 'raise' else trees)[ent[4]]
-                        ent[1] = printers[ent[3]](tree)
-                    try:
-                        if op in ('step', 'abandon'):
-                            # an abandoned call has been consumed partly
-                            for _ in range(17):
-                                c = next(ent[1], None)
-                                if c is None:
-                                    break
-                                ent[2].append(tuple(c))
-                        elif op == 'finish':
-                            for c in ent[1]:
-                                ent[2].append(tuple(c))
-                            result = digest(ent[2])
-                        elif op == 'raise':
-                            try:
-                                for c in ent[1]:
-                                    pass
-                            except Exception:
-                                pass
-                    except Exception as e:
-                        result = digest(('EXC', repr(e)))
-                    if op in ('finish', 'abandon', 'raise'):
-                        live.pop(x - 1)
-                events.append([op, cid, result,
-                               digest([tree_snapshot(t) for t in trees]),
-                               digest(shared_snapshot(printers))])
-            # `raise` after steps on the good tree cannot swap trees: such
-            # histories are performed as "step then abandon"; fine.
+        for k in range(nslices):
+            units.append((pi, qi, hists[k::nslices]))
+    global _CTX
+    _CTX = (factories, trees, bads, ref)
+    import impl
+    for (pi, qi, hs), recs in zip(units, impl.pmap(_unit, units, chunk=1,
+                                                   seconds=None)):
+        for h, rec in zip(hs, recs):
             rid = len(records)
-            refs = [0] + [ref[(callmap[c][0][1], callmap[c][1])]
-                          for c in range(1, 7)]
-            records.append({'id': rid, 'events': events,
-                            'ref': refs[1:], 'args0': args0,
-                            'shared0': shared0})
+            rec['id'] = rid
+            records.append(rec)
             info[rid] = (factories[pi][0], factories[qi][0], h)
             rep.count('evaluations')
             if any(op in ('abandon', 'raise', 'step') for op, _ in h[:-1]):
